@@ -304,6 +304,7 @@ def main(tier: str, seed: int) -> int:
                     chk.violation(v, vcase, vrec)
                 chk.case_ok(f"{vname}:{len(m.decls)}")
         chk.sample({"module": m.qname, "files": sorted(bfiles), "variants": [v for v, _ in variants]}, limit=3)
+    form_library_relations(chk, tier, seed)
     chk.assumptions = [
         "cone of M = M, the modules it imports from (transitively) and the __init__ files re-exporting its declarations",
         "unrelated modules may import M; they are outside M's cone",
@@ -312,6 +313,85 @@ def main(tier: str, seed: int) -> int:
         rule="one case = one (module, variant package) pair compared with the base run; distinct = (variant kind, number of output files attributable to the module); all non-trivial",
         min_cases=40 if tier == "quick" else 800,
     )
+
+
+def form_library_relations(chk: Check, tier: str, seed: int) -> None:
+    """The same relations on modules composed from C01's library of declaration forms (every form: overloads,
+    dataclasses, generics, docstrings of every style, decorators, ...): module M next to (a) nothing else, (b) another
+    module, (c) COPIES of itself under other names analysed before and after it (every class / function / type variable
+    name occurs again), and M with its blocks of declarations permuted."""
+    from .. import snippets as sn
+    from . import c01
+
+    gated = gated_features()
+    usable = [(f, src) for f, src in sn.SNIPPETS if f not in gated and f not in ("func:dunder-module-level", "module:all-and-dunder", "module:big-function")]
+    rng = rng_for(seed, PID, "form-library")
+    batches, index = [], []
+    n = 3 if tier == "quick" else 60
+    optsets = [[], ["--docstyle", "numpydoc"], ["-nc", "--docstyle", "google"], ["--docstyle", "rest", "-tsp", "docstring"]]
+    for g in range(n):
+        blocks = [c01.subst(src, 500 + g * 40 + k) + "\n\n" for k, (f, src) in enumerate(rng.sample(usable, 14))]
+        other = [c01.subst(src, 900 + g * 40 + k) + "\n\n" for k, (f, src) in enumerate(rng.sample(usable, 10))]
+        m_text = sn.PRELUDE + "".join(blocks)
+        perm = list(blocks)
+        rng.shuffle(perm)
+        o_text = sn.PRELUDE + "".join(other)
+        base = {"src/pk/__init__.py": "", "src/pk/mod_m.py": m_text, "src/pk/other_mod.py": o_text}
+        variants = {
+            "base": base,
+            "alone": {k: v for k, v in base.items() if k != "src/pk/other_mod.py"},
+            "copies-before-and-after": {**base, "src/pk/aa_copy.py": m_text, "src/pk/zz_copy.py": m_text, "src/pk/sub/__init__.py": "", "src/pk/sub/mod_m.py": m_text},
+            "permute-blocks": {**base, "src/pk/mod_m.py": sn.PRELUDE + "".join(perm)},
+        }
+        opts = optsets[g % len(optsets)]
+        for vname, files in variants.items():
+            batches.append([Case(cid=f"c18-forms{g}-{vname}", files=files, opts=opts, reach=REACH, perturb=SORTED)])
+            index.append((g, vname))
+    results = run_many(batches, steps="reach")
+    recs: dict = {}
+    for (g, vname), (batch, rs, mon, err) in zip(index, results, strict=True):
+        if err:
+            chk.runner_error(err)
+            continue
+        chk.note_run(rs[0], mon)
+        recs[(g, vname)] = (batch[0], rs[0])
+    own = "pk/mod_m/mod_m.sdsstub"
+    for g in range(n):
+        if (g, "base") not in recs or recs[(g, "base")][1]["outcome"] != "ok":
+            chk.discarded["base-run-failed"] += 1
+            continue
+        btree = recs[(g, "base")][1]["tree"]
+        if own not in btree:
+            chk.discarded["module-has-no-stub"] += 1
+            continue
+        for vname in ("alone", "copies-before-and-after", "permute-blocks"):
+            if (g, vname) not in recs:
+                continue
+            vcase, vrec = recs[(g, vname)]
+            if vrec["outcome"] != "ok":
+                chk.discarded[f"variant-run-failed:{vname}"] += 1
+                continue
+            a, b = btree[own], vrec["tree"].get(own)
+            if vname != "permute-blocks":
+                if a != b:
+                    al, bl = a.splitlines(), (b or "").splitlines()
+                    chk.violation(Viol("stub-changes-with-unrelated-module", f"forms:{vname}", {"module": "pk.mod_m", "diff": {own: {"only_base": [x for x in al if x not in bl][:6], "only_variant": [x for x in bl if x not in al][:6]}}}), vcase, vrec)
+                chk.case_ok(f"forms:{vname}")
+            else:
+                sa, sb = StubSet({own: a}), StubSet({own: b or ""})
+                if own in sa.files and own in sb.files:
+                    ma, mb = sa.files[own], sb.files[own]
+                    if (ma.package, sorted(ma.imports)) != (mb.package, sorted(mb.imports)):
+                        chk.violation(Viol("permutation-changes-header", "forms:permute-blocks", {"file": own, "base_imports": ma.imports, "variant_imports": mb.imports}), vcase, vrec)
+                    ca = sorted(repr(c09.canon_decl(d, False)) for d in ma.decls)
+                    cb = sorted(repr(c09.canon_decl(d, False)) for d in mb.decls)
+                    if ca != cb:
+                        only_a = [x for x in ca if x not in cb][:2]
+                        only_b = [x for x in cb if x not in ca][:2]
+                        chk.violation(Viol("permutation-changes-declarations", "forms:permute-blocks", {"file": own, "only_base": [x[:500] for x in only_a], "only_variant": [x[:500] for x in only_b]}), vcase, vrec)
+                else:
+                    chk.discarded["unparsable-stub:forms"] += 1
+                chk.case_ok("forms:permute-blocks")
 
 
 def compare_permuted(m: pg.Mod, vm: pg.Mod, bfiles: dict, vfiles: dict) -> list[Viol]:
